@@ -1,3 +1,824 @@
-//! C15 — bounded checks (to be written)
-use crate::ctx::Ctx;
-pub fn run(_ctx: &mut Ctx) {}
+//! C15 — layering respects dependencies, is as shallow as possible, and flags cycles.
+//!
+//! Oracle (written from the statement, plain loops over Vec):
+//!   * `y depends on x`  <=>  some target node of x is a source node of y           (dep_matrix)
+//!   * `reach`           =   transitive closure (>= 1 step) of `depends`              (closure)
+//!   * bad(y)            <=>  some x with reach[x][x] and (x == y or reach[x][y])      (on / downstream of a cycle)
+//!   * chain length      =   longest dependency chain among the not-bad operations    (relaxation to fixpoint)
+//! Any layering that satisfies the stated clauses is accepted (the exact layer numbers of the
+//! library are not compared with a reference layering).
+//!
+//! Checks:
+//!   layer      : strict::layer::layer + layered_operations on a plain model
+//!   kahn       : verif_hooks::kahn on a raw adjacency multigraph (every such multigraph is the
+//!                dependency multigraph of a hypergraph, so the same clauses apply)
+//!   adjacency  : verif_hooks::operation_adjacency has exactly the `depends` relation
+use crate::ctx::{guard, Ctx, Rng};
+use crate::model::*;
+use open_hypergraphs::array::vec::*;
+use open_hypergraphs::finite_function::FiniteFunction;
+use open_hypergraphs::indexed_coproduct::IndexedCoproduct;
+use open_hypergraphs::semifinite::SemifiniteFunction;
+use open_hypergraphs::strict::layer::{layer, layered_operations};
+use open_hypergraphs::verif_hooks;
+use serde_json::{json, Value};
+
+type Check = fn(&mut Ctx, &Value);
+const CHECKS: &[(&str, Check)] = &[("layer", chk_layer), ("kahn", chk_kahn), ("adjacency", chk_adjacency)];
+
+// ------------------------------------------------------------------------------------------------
+// oracle
+// ------------------------------------------------------------------------------------------------
+/// d[x][y] = true iff y depends on x (some target node of x is a source node of y)
+fn dep_matrix(m: &M) -> Vec<Vec<bool>> {
+    let k = m.x.len();
+    let mut d = vec![vec![false; k]; k];
+    for x in 0..k {
+        for y in 0..k {
+            for &a in &m.tgt[x] {
+                for &b in &m.src[y] {
+                    if a == b {
+                        d[x][y] = true;
+                    }
+                }
+            }
+        }
+    }
+    d
+}
+
+/// transitive closure, at least one step
+fn closure(d: &Vec<Vec<bool>>) -> Vec<Vec<bool>> {
+    let k = d.len();
+    let mut r = d.clone();
+    for via in 0..k {
+        for a in 0..k {
+            if r[a][via] {
+                for b in 0..k {
+                    if r[via][b] {
+                        r[a][b] = true;
+                    }
+                }
+            }
+        }
+    }
+    r
+}
+
+/// operations on or downstream of a directed dependency cycle
+fn bad_set(d: &Vec<Vec<bool>>) -> Vec<bool> {
+    let k = d.len();
+    let r = closure(d);
+    let mut bad = vec![false; k];
+    for x in 0..k {
+        if r[x][x] {
+            bad[x] = true;
+            for y in 0..k {
+                if r[x][y] {
+                    bad[y] = true;
+                }
+            }
+        }
+    }
+    bad
+}
+
+/// number of operations on the longest dependency chain among the operations with ok[x]
+/// (the dependency relation restricted to them is acyclic)
+fn longest_chain(d: &Vec<Vec<bool>>, ok: &Vec<bool>) -> usize {
+    let k = d.len();
+    let mut len = vec![0usize; k];
+    for x in 0..k {
+        if ok[x] {
+            len[x] = 1;
+        }
+    }
+    // relax to fixpoint; at most k rounds are needed on an acyclic relation
+    for _ in 0..=k {
+        let mut changed = false;
+        for x in 0..k {
+            for y in 0..k {
+                if ok[x] && ok[y] && d[x][y] && len[y] < len[x] + 1 {
+                    len[y] = len[x] + 1;
+                    changed = true;
+                }
+            }
+        }
+        if !changed {
+            break;
+        }
+    }
+    len.into_iter().max().unwrap_or(0)
+}
+
+/// evaluate all clauses on a (layer, flags) answer; `pre` is the clause prefix
+fn verify(ctx: &mut Ctx, check: &str, pre: &str, input: &Value, d: &Vec<Vec<bool>>, lay: &[usize], flags: &[usize]) -> bool {
+    let k = d.len();
+    let mut ok = true;
+    if lay.len() != k || flags.len() != k {
+        ctx.fail(check, &format!("{}.shape", pre), input, json!({"layer_len": lay.len(), "flags_len": flags.len()}), json!(k));
+        return false;
+    }
+    if flags.iter().any(|&f| f > 1) {
+        ctx.fail(check, &format!("{}.shape", pre), input, json!({"flags": flags}), json!("flags in {0,1}"));
+        return false;
+    }
+    let bad = bad_set(d);
+    let exp_flags: Vec<usize> = bad.iter().map(|&b| b as usize).collect();
+    if flags != &exp_flags[..] {
+        ctx.fail(check, &format!("{}.unvisited-exactly-cyclic", pre), input, json!({"unvisited": flags, "layer": lay}), json!({"unvisited": exp_flags}));
+        ok = false;
+    }
+    let good: Vec<bool> = bad.iter().map(|&b| !b).collect();
+    // strictly greater than every dependency (dependencies of a good operation are all good);
+    // operations wrongly flagged unvisited were already reported above and carry no layer
+    let vis = |x: usize| good[x] && flags[x] == 0;
+    for y in 0..k {
+        for x in 0..k {
+            if vis(x) && vis(y) && d[x][y] && !(lay[y] > lay[x]) {
+                ctx.fail(
+                    check,
+                    &format!("{}.layer-respects-deps", pre),
+                    input,
+                    json!({"layer": lay, "x": x, "y": y}),
+                    json!(format!("layer[{}] > layer[{}] because {} depends on {}", y, x, y, x)),
+                );
+                return false;
+            }
+        }
+    }
+    if !ok {
+        return false; // the layer count is relative to the visited set, which is already wrong
+    }
+    // numbered from 0, number of layers used == longest chain
+    let chain = longest_chain(d, &good);
+    let used: std::collections::BTreeSet<usize> = (0..k).filter(|&x| good[x]).map(|x| lay[x]).collect();
+    let from_zero = used.iter().cloned().eq(0..used.len());
+    if !from_zero || used.len() != chain {
+        ctx.fail(
+            check,
+            &format!("{}.layer-count-is-longest-chain", pre),
+            input,
+            json!({"layer": lay, "layers_used": used.iter().collect::<Vec<_>>()}),
+            json!({"layers": format!("0..{}", chain)}),
+        );
+        ok = false;
+    }
+    ok
+}
+
+fn has_dependency(d: &Vec<Vec<bool>>) -> bool {
+    d.iter().any(|r| r.iter().any(|&b| b))
+}
+
+// ------------------------------------------------------------------------------------------------
+// checks
+// ------------------------------------------------------------------------------------------------
+/// input: {"m": model}
+fn chk_layer(ctx: &mut Ctx, input: &Value) {
+    let m = match M::from_json(&input["m"]) {
+        Some(m) if m.valid() => m,
+        _ => return,
+    };
+    let k = m.x.len();
+    let d = dep_matrix(&m);
+    ctx.case("layer", input, k >= 2 && has_dependency(&d));
+    let f = m.to_strict();
+    let (lay, flags) = match guard(|| layer(&f)) {
+        Err(p) => {
+            ctx.fail("layer", "C15.returns", input, json!(format!("layer panicked: {}", p)), json!("a layering"));
+            return;
+        }
+        Ok((l, u)) => (l, u.0),
+    };
+    if lay.table.0.iter().any(|&v| v >= lay.target) && !lay.table.0.is_empty() {
+        ctx.fail("layer", "C15.layer-function-wf", input, json!({"table": lay.table.0, "target": lay.target}), json!("values < target"));
+    }
+    let lay = lay.table.0;
+    let good = verify(ctx, "layer", "C15", input, &d, &lay, &flags);
+
+    // grouped form
+    let (groups, unv) = match guard(|| layered_operations(&f)) {
+        Err(p) => {
+            ctx.fail("layer", "C15.returns", input, json!(format!("layered_operations panicked: {}", p)), json!("a grouped layering"));
+            return;
+        }
+        Ok((g, u)) => (g.into_iter().map(|a| a.0).collect::<Vec<Vec<usize>>>(), u.0),
+    };
+    if unv != flags {
+        ctx.fail("layer", "C15.grouped-flags-agree", input, json!({"layered_operations": unv}), json!({"layer": flags}));
+    }
+    if !good {
+        return; // the grouped form is judged against a layering that is itself conforming
+    }
+    if groups.iter().flatten().any(|&e| e >= k) {
+        ctx.fail("layer", "C15.grouped-lists-operations", input, json!(groups), json!(format!("entries < {}", k)));
+        return;
+    }
+    for x in 0..k {
+        if flags[x] == 0 {
+            let total = groups.iter().flatten().filter(|&&e| e == x).count();
+            let in_own = groups.get(lay[x]).map(|g| g.iter().filter(|&&e| e == x).count()).unwrap_or(0);
+            if total != 1 || in_own != 1 {
+                ctx.fail(
+                    "layer",
+                    "C15.grouped-visited-once-in-its-layer",
+                    input,
+                    json!({"groups": groups, "op": x, "occurrences": total, "in_group_of_its_layer": in_own}),
+                    json!({"layer": lay, "unvisited": flags}),
+                );
+                return;
+            }
+        }
+    }
+}
+
+fn adj_from_json(v: &Value) -> Option<Vec<Vec<usize>>> {
+    v.as_array()?.iter().map(|l| l.as_array()?.iter().map(|x| x.as_u64().map(|y| y as usize)).collect()).collect()
+}
+
+fn adj_to_ic(adj: &Vec<Vec<usize>>) -> IC {
+    let k = adj.len();
+    let sizes: Vec<usize> = adj.iter().map(|l| l.len()).collect();
+    let vals: Vec<usize> = adj.iter().flatten().cloned().collect();
+    IndexedCoproduct::from_semifinite(SemifiniteFunction(VecArray(sizes)), FiniteFunction::new(VecArray(vals), k).unwrap()).unwrap()
+}
+
+/// input: {"adj": [[successor, ...], ...]}  (multigraph; adj[x] lists the operations depending on x, with repeats)
+fn chk_kahn(ctx: &mut Ctx, input: &Value) {
+    let adj = match adj_from_json(&input["adj"]) {
+        Some(a) if a.iter().flatten().all(|&v| v < a.len()) => a,
+        _ => return,
+    };
+    let k = adj.len();
+    let mut d = vec![vec![false; k]; k];
+    for x in 0..k {
+        for &y in &adj[x] {
+            d[x][y] = true;
+        }
+    }
+    ctx.case("kahn", input, k >= 2 && has_dependency(&d));
+    let ic = adj_to_ic(&adj);
+    match guard(|| verif_hooks::kahn::<VecKind>(&ic)) {
+        Err(p) => ctx.fail("kahn", "C15.kahn.returns", input, json!(format!("panic: {}", p)), json!("a layering")),
+        Ok((order, unvisited)) => {
+            verify(ctx, "kahn", "C15.kahn", input, &d, &order.0, &unvisited.0);
+        }
+    }
+}
+
+/// input: {"m": model}
+fn chk_adjacency(ctx: &mut Ctx, input: &Value) {
+    let m = match M::from_json(&input["m"]) {
+        Some(m) if m.valid() => m,
+        _ => return,
+    };
+    let k = m.x.len();
+    let d = dep_matrix(&m);
+    ctx.case("adjacency", input, k >= 2 && has_dependency(&d));
+    let f = m.to_strict();
+    match guard(|| verif_hooks::operation_adjacency(&f.h)) {
+        Err(p) => ctx.fail("adjacency", "C15.adjacency.returns", input, json!(format!("panic: {}", p)), json!("an adjacency list")),
+        Ok(a) => match ic_wf(&a, Some(k), Some(k)) {
+            Err(why) => ctx.fail("adjacency", "C15.adjacency.wf", input, json!(why), json!("well-formed segmented array X -> X*")),
+            Ok(lists) => {
+                let mut got = vec![vec![false; k]; k];
+                for x in 0..k {
+                    for &y in &lists[x] {
+                        got[x][y] = true;
+                    }
+                }
+                if got != d {
+                    ctx.fail("adjacency", "C15.adjacency.is-depends-relation", input, json!(lists), json!(d));
+                }
+            }
+        },
+    }
+}
+
+// ------------------------------------------------------------------------------------------------
+// generators
+// ------------------------------------------------------------------------------------------------
+fn shuffle(r: &mut Rng, n: usize) -> Vec<usize> {
+    let mut p: Vec<usize> = (0..n).collect();
+    for i in (1..n).rev() {
+        let j = r.below(i + 1);
+        p.swap(i, j);
+    }
+    p
+}
+
+/// renumber operations: operation e becomes pe[e]; nodes: node v becomes pn[v]
+fn renumber(m: &M, pn: &[usize], pe: &[usize]) -> M {
+    let (n, k) = (m.w.len(), m.x.len());
+    let mut w = vec![0u8; n];
+    for v in 0..n {
+        w[pn[v]] = m.w[v];
+    }
+    let mut x = vec![0u8; k];
+    let mut src = vec![vec![]; k];
+    let mut tgt = vec![vec![]; k];
+    let mp = |l: &Vec<usize>| l.iter().map(|&v| pn[v]).collect::<Vec<_>>();
+    for e in 0..k {
+        x[pe[e]] = m.x[e];
+        src[pe[e]] = mp(&m.src[e]);
+        tgt[pe[e]] = mp(&m.tgt[e]);
+    }
+    M { w, x, src, tgt, s: mp(&m.s), t: mp(&m.t) }
+}
+
+fn scramble(r: &mut Rng, m: &M) -> M {
+    let pn = shuffle(r, m.w.len());
+    let pe = shuffle(r, m.x.len());
+    renumber(m, &pn, &pe)
+}
+
+/// realise a dependency multigraph (mult[x][y] parallel dependencies of y on x) as a hypergraph.
+/// style 0: one node per pair, repeated `mult` times among the targets of x, once among the sources of y
+/// style 1: one node per pair, once among the targets of x, repeated `mult` times among the sources of y
+/// style 2: one output node per operation x, read mult[x][y] times by every y (node used by several operations)
+/// style 3: one input node per operation y, written mult[x][y] times by every x (node written by several operations)
+/// style 4: per pair, mult = a*b split between both sides when divisible, else style 0/1 at random
+fn model_from_mult(r: &mut Rng, mult: &Vec<Vec<usize>>, style: usize) -> M {
+    let k = mult.len();
+    let mut w: Vec<u8> = vec![];
+    let mut src = vec![vec![]; k];
+    let mut tgt = vec![vec![]; k];
+    match style {
+        2 => {
+            for x in 0..k {
+                if (0..k).any(|y| mult[x][y] > 0) {
+                    let v = w.len();
+                    w.push(0);
+                    tgt[x].push(v);
+                    for y in 0..k {
+                        for _ in 0..mult[x][y] {
+                            src[y].push(v);
+                        }
+                    }
+                }
+            }
+        }
+        3 => {
+            for y in 0..k {
+                if (0..k).any(|x| mult[x][y] > 0) {
+                    let v = w.len();
+                    w.push(0);
+                    src[y].push(v);
+                    for x in 0..k {
+                        for _ in 0..mult[x][y] {
+                            tgt[x].push(v);
+                        }
+                    }
+                }
+            }
+        }
+        _ => {
+            for x in 0..k {
+                for y in 0..k {
+                    let mu = mult[x][y];
+                    if mu == 0 {
+                        continue;
+                    }
+                    let v = w.len();
+                    w.push((v % 2) as u8);
+                    let (a, b) = match style {
+                        0 => (mu, 1),
+                        1 => (1, mu),
+                        _ => {
+                            let divs: Vec<usize> = (1..=mu).filter(|q| mu % q == 0).collect();
+                            let a = divs[r.below(divs.len())];
+                            (a, mu / a)
+                        }
+                    };
+                    for _ in 0..a {
+                        tgt[x].push(v);
+                    }
+                    for _ in 0..b {
+                        src[y].push(v);
+                    }
+                }
+            }
+        }
+    }
+    // a dangling node and boundary wiring that must not matter
+    if r.chance(1, 3) {
+        w.push(1);
+    }
+    let n = w.len();
+    let ls = r.below(3);
+    let s = if n > 0 { r.vec_below(ls, n) } else { vec![] };
+    let lt = r.below(3);
+    let t = if n > 0 { r.vec_below(lt, n) } else { vec![] };
+    M { w, x: (0..k).map(|e| 10 + (e % 3) as u8).collect(), src, tgt, s, t }
+}
+
+fn adj_from_mult(mult: &Vec<Vec<usize>>) -> Vec<Vec<usize>> {
+    mult.iter().map(|row| row.iter().enumerate().flat_map(|(y, &mu)| std::iter::repeat(y).take(mu)).collect()).collect()
+}
+
+fn zeros(k: usize) -> Vec<Vec<usize>> {
+    vec![vec![0; k]; k]
+}
+
+fn permute_mult(mult: &Vec<Vec<usize>>, p: &[usize]) -> Vec<Vec<usize>> {
+    let k = mult.len();
+    let mut out = zeros(k);
+    for x in 0..k {
+        for y in 0..k {
+            out[p[x]][p[y]] = mult[x][y];
+        }
+    }
+    out
+}
+
+/// named corner multigraphs
+fn corner_mults() -> Vec<Vec<Vec<usize>>> {
+    let mut out: Vec<Vec<Vec<usize>>> = vec![];
+    // no operations, isolated operations (zero arity after realisation)
+    for k in [0usize, 1, 2, 5] {
+        out.push(zeros(k));
+    }
+    // chains, in order and reversed numbering, including long ones
+    for k in [2usize, 3, 4, 6, 9, 33, 64] {
+        let mut c = zeros(k);
+        let mut rc = zeros(k);
+        for i in 0..k - 1 {
+            c[i][i + 1] = 1;
+            rc[k - 1 - i][k - 2 - i] = 1;
+        }
+        out.push(c);
+        out.push(rc);
+    }
+    // pure cycles: self-dependence, 2, 3, 5
+    for k in [1usize, 2, 3, 5] {
+        let mut c = zeros(k);
+        for i in 0..k {
+            c[i][(i + 1) % k] = 1;
+        }
+        out.push(c);
+    }
+    // parallel dependencies x =(mu)=> y -> z with an independent w -> z : multiplicity above #nodes, #operations
+    for mu in [2usize, 3, 4, 5, 7, 12, 25] {
+        let mut c = zeros(4);
+        c[0][1] = mu;
+        c[1][2] = 1;
+        c[3][2] = mu - 1;
+        out.push(c);
+        // two producers at different depths feeding one consumer with high multiplicity
+        let mut c = zeros(4);
+        c[0][1] = 1;
+        c[0][3] = mu;
+        c[1][3] = mu;
+        c[3][2] = 2;
+        out.push(c);
+    }
+    // head -> (2-cycle) -> tail -> tail, plus an isolated op and an op upstream only
+    {
+        let mut c = zeros(7);
+        c[0][1] = 1; // head (visited)
+        c[1][2] = 1;
+        c[2][1] = 1; // cycle 1 <-> 2
+        c[2][3] = 1;
+        c[3][4] = 1; // tail 3 -> 4 (unvisited)
+        c[0][5] = 1; // 5 depends only on head (visited, layer 1)
+        c[5][4] = 1; // 4 also depends on a visited op: still unvisited
+        out.push(c); // op 6 isolated
+    }
+    // long tail downstream of a cycle and long run-up upstream of it
+    {
+        let k = 40;
+        let mut c = zeros(k);
+        for i in 0..k - 1 {
+            c[i][i + 1] = 1;
+        }
+        c[20][19] = 1; // cycle 19 <-> 20 in the middle
+        out.push(c);
+    }
+    // unbalanced diamond: 0 -> 1 -> 2 -> 3 -> 4 and 0 -> 4, 0 -> 5
+    {
+        let mut c = zeros(6);
+        for i in 0..4 {
+            c[i][i + 1] = 1;
+        }
+        c[0][4] = 1;
+        c[0][5] = 1;
+        out.push(c);
+        // same with the short arm doubled (multiplicity 2 across depths)
+        let mut c2 = out.last().unwrap().clone();
+        c2[0][4] = 2;
+        c2[3][4] = 3;
+        out.push(c2);
+    }
+    // complete DAGs (dense) with multiplicity 1 and with multiplicity growing with distance
+    for k in 2..=7usize {
+        let mut c = zeros(k);
+        let mut c2 = zeros(k);
+        for i in 0..k {
+            for j in i + 1..k {
+                c[i][j] = 1;
+                c2[i][j] = j - i;
+            }
+        }
+        out.push(c);
+        out.push(c2);
+    }
+    // complete digraph (everything cyclic), with and without self-dependence
+    for k in 2..=4usize {
+        let mut c = zeros(k);
+        let mut c2 = zeros(k);
+        for i in 0..k {
+            for j in 0..k {
+                c[i][j] = 1;
+                if i != j {
+                    c2[i][j] = 2;
+                }
+            }
+        }
+        out.push(c);
+        out.push(c2);
+    }
+    // self-dependent operation with a dependent and an independent neighbour
+    {
+        let mut c = zeros(3);
+        c[0][0] = 2;
+        c[0][1] = 1;
+        out.push(c);
+        let mut c = zeros(3);
+        c[1][1] = 1;
+        c[0][1] = 1;
+        c[0][2] = 1;
+        out.push(c);
+    }
+    // figure eight: two cycles through operation 0, one acyclic component beside it
+    {
+        let mut c = zeros(7);
+        c[0][1] = 1;
+        c[1][0] = 1;
+        c[0][2] = 1;
+        c[2][3] = 1;
+        c[3][0] = 1;
+        c[4][5] = 1;
+        c[5][6] = 1;
+        c[4][6] = 1;
+        out.push(c);
+    }
+    // wide fan-in and fan-out: 40 independent ops feed one op which feeds 40
+    {
+        let k = 81;
+        let mut c = zeros(k);
+        for i in 0..40 {
+            c[i][40] = 1 + i % 3;
+            c[40][41 + i] = 1 + i % 2;
+        }
+        out.push(c);
+    }
+    // binary tree of depth 5 (31 ops), edges toward the root
+    {
+        let k = 31;
+        let mut c = zeros(k);
+        for i in 1..k {
+            c[i][(i - 1) / 2] = 1;
+        }
+        out.push(c);
+    }
+    // ladder: layer sizes unbalanced, later op depends on ops from several different depths
+    {
+        let mut c = zeros(6);
+        c[0][1] = 1;
+        c[1][2] = 1;
+        c[2][3] = 1;
+        c[0][3] = 1;
+        c[1][3] = 1;
+        c[4][3] = 1;
+        c[4][5] = 1;
+        c[5][2] = 1;
+        out.push(c);
+    }
+    out
+}
+
+/// hand-written hypergraph corners that are not realisations of a multigraph in one of the styles
+fn corner_hypergraphs() -> Vec<M> {
+    let mut out = corner_models();
+    // zero-arity operations only
+    out.push(M { w: vec![], x: vec![10, 11, 10], src: vec![vec![]; 3], tgt: vec![vec![]; 3], s: vec![], t: vec![] });
+    // zero-arity operations among a chain, with nodes on the boundary
+    out.push(M { w: vec![0, 0, 0], x: vec![10, 11, 12, 10], src: vec![vec![], vec![1], vec![], vec![0]], tgt: vec![vec![], vec![2], vec![], vec![1]], s: vec![0], t: vec![2] });
+    // every operation reads and writes the single node
+    for k in 1..=4 {
+        out.push(M { w: vec![0], x: vec![10; k], src: vec![vec![0]; k], tgt: vec![vec![0]; k], s: vec![0], t: vec![0] });
+    }
+    // one node written by two operations and read by two operations (2 x 2 dependencies through one node)
+    out.push(M { w: vec![0, 0, 0], x: vec![10, 11, 12, 13], src: vec![vec![0], vec![0], vec![1], vec![1, 1]], tgt: vec![vec![1], vec![1, 1], vec![2], vec![]], s: vec![0], t: vec![2] });
+    // operation using the same node three times as source and, separately, three times as target
+    out.push(M { w: vec![0, 0, 0], x: vec![10, 11], src: vec![vec![0, 0, 0], vec![1, 1, 1]], tgt: vec![vec![1, 1, 1], vec![2, 2, 2]], s: vec![0], t: vec![2] });
+    // sources nobody writes, targets nobody reads
+    out.push(M { w: vec![0, 0, 0, 0], x: vec![10, 11], src: vec![vec![0], vec![1]], tgt: vec![vec![2], vec![3]], s: vec![], t: vec![] });
+    // dependency only through a node that is also on both boundaries
+    out.push(M { w: vec![0, 1], x: vec![10, 11], src: vec![vec![1], vec![0]], tgt: vec![vec![0], vec![]], s: vec![0, 0], t: vec![0, 1] });
+    // operation-free diagram with non-identity wiring
+    out.push(M { w: vec![0, 0, 1], x: vec![], src: vec![], tgt: vec![], s: vec![2, 0, 0], t: vec![1, 2] });
+    out
+}
+
+/// random hypergraph, acyclic by construction through node/operation ranks, optionally spoiled by a back reference
+fn random_ranked(r: &mut Rng, max_nodes: usize, max_ops: usize, max_arity: usize) -> M {
+    let n = r.range(1, max_nodes);
+    let k = r.range(0, max_ops);
+    let ranks = r.range(1, 5);
+    let nrank: Vec<usize> = (0..n).map(|_| r.below(ranks + 1)).collect();
+    let mut x = vec![];
+    let mut src = vec![];
+    let mut tgt = vec![];
+    for e in 0..k {
+        let q = r.below(ranks); // sources from rank <= q, targets from rank > q
+        let lo: Vec<usize> = (0..n).filter(|&v| nrank[v] <= q).collect();
+        let hi: Vec<usize> = (0..n).filter(|&v| nrank[v] > q).collect();
+        let pick = |r: &mut Rng, pool: &Vec<usize>| -> Vec<usize> {
+            if pool.is_empty() {
+                return vec![];
+            }
+            let a = r.range(0, max_arity);
+            // sometimes repeat one node many times
+            if r.chance(1, 6) {
+                let v = pool[r.below(pool.len())];
+                return vec![v; a + 1];
+            }
+            (0..a).map(|_| pool[r.below(pool.len())]).collect()
+        };
+        x.push(10 + (e % 2) as u8);
+        src.push(pick(r, &lo));
+        tgt.push(pick(r, &hi));
+    }
+    // spoil: with probability 1/3 add one or two arbitrary extra incidences (may create cycles / self-dependence)
+    if k > 0 && r.chance(1, 3) {
+        for _ in 0..r.range(1, 2) {
+            let e = r.below(k);
+            let v = r.below(n);
+            if r.chance(1, 2) {
+                src[e].push(v);
+            } else {
+                tgt[e].push(v);
+            }
+        }
+    }
+    let (ls, lt) = (r.below(3), r.below(3));
+    let s = r.vec_below(ls, n);
+    let t = r.vec_below(lt, n);
+    M { w: (0..n).map(|v| (v % 2) as u8).collect(), x, src, tgt, s, t }
+}
+
+/// random dependency multigraph biased to acyclic, optionally with back / self edges
+fn random_mult(r: &mut Rng, max_ops: usize, max_mult: usize) -> Vec<Vec<usize>> {
+    let k = r.range(0, max_ops);
+    let p = shuffle(r, k);
+    let dens = r.range(1, 4);
+    let mut c = zeros(k);
+    for a in 0..k {
+        for b in 0..k {
+            if p[a] < p[b] && r.chance(dens, 5) {
+                c[a][b] = if r.chance(1, 2) { 1 } else { r.range(1, max_mult) };
+            }
+        }
+    }
+    if k > 0 && r.chance(2, 5) {
+        for _ in 0..r.range(1, 2) {
+            let (a, b) = (r.below(k), r.below(k));
+            c[a][b] += r.range(1, 2);
+        }
+    }
+    c
+}
+
+fn run_mult(ctx: &mut Ctx, mult: &Vec<Vec<usize>>, styles: &[usize]) {
+    chk_kahn(ctx, &json!({"adj": adj_from_mult(mult)}));
+    for &st in styles {
+        let m = model_from_mult(&mut ctx.rng, mult, st);
+        let input = json!({"m": m.json()});
+        chk_layer(ctx, &input);
+        chk_adjacency(ctx, &input);
+    }
+}
+
+pub fn run(ctx: &mut Ctx) {
+    if let Some((name, input)) = ctx.replay.clone() {
+        for (n, c) in CHECKS {
+            if *n == name {
+                c(ctx, &input);
+            }
+        }
+        return;
+    }
+    // (a) corners
+    for m in corner_hypergraphs() {
+        let input = json!({"m": m.json()});
+        chk_layer(ctx, &input);
+        chk_adjacency(ctx, &input);
+        let m2 = scramble(&mut ctx.rng, &m);
+        let input = json!({"m": m2.json()});
+        chk_layer(ctx, &input);
+        chk_adjacency(ctx, &input);
+    }
+    for c in corner_mults() {
+        let k = c.len();
+        let styles: &[usize] = if k > 40 { &[0, 2] } else { &[0, 1, 2, 3, 4] };
+        run_mult(ctx, &c, styles);
+        // same multigraph under a random renumbering of the operations
+        let p = shuffle(&mut ctx.rng, k);
+        run_mult(ctx, &permute_mult(&c, &p), if k > 40 { &[3] } else { &[4, 2] });
+    }
+
+    // (b) exhaustive: every dependency multigraph on k operations with multiplicities 0..=mmax
+    //     quick: k<=2 (m<=3), k=3 (m<=1); thorough adds k=3 (m<=2), k=4 (m<=1)
+    let mut plans: Vec<(usize, usize)> = vec![(1, 3), (2, 3), (3, 1)];
+    if ctx.thorough() {
+        plans.push((3, 2));
+        plans.push((4, 1));
+    }
+    for (k, mmax) in plans {
+        let cells = k * k;
+        let base = mmax + 1;
+        let total = base.pow(cells as u32);
+        for code in 0..total {
+            let mut c = zeros(k);
+            let mut q = code;
+            for i in 0..cells {
+                c[i / k][i % k] = q % base;
+                q /= base;
+            }
+            let st = [code % 5];
+            run_mult(ctx, &c, &st);
+        }
+    }
+    // (b') exhaustive hypergraphs: n nodes, k operations, every source/target list of length <= 2
+    let mut hplans: Vec<(usize, usize)> = vec![(1, 2), (2, 2), (1, 3)];
+    if ctx.thorough() {
+        hplans.push((3, 2));
+        hplans.push((2, 3));
+    }
+    for (n, k) in hplans {
+        let mut lists: Vec<Vec<usize>> = vec![vec![]];
+        for a in 0..n {
+            lists.push(vec![a]);
+        }
+        for a in 0..n {
+            for b in 0..n {
+                lists.push(vec![a, b]);
+            }
+        }
+        let l = lists.len();
+        let total = l.pow(2 * k as u32);
+        // thorough (2,3): 7^6 = 117649 cases; sample every case
+        for code in 0..total {
+            let mut q = code;
+            let mut src = vec![];
+            let mut tgt = vec![];
+            for _ in 0..k {
+                src.push(lists[q % l].clone());
+                q /= l;
+                tgt.push(lists[q % l].clone());
+                q /= l;
+            }
+            let m = M { w: vec![0; n], x: vec![10; k], src, tgt, s: vec![], t: vec![] };
+            let input = json!({"m": m.json()});
+            chk_layer(ctx, &input);
+            if code % 4 == 0 {
+                chk_adjacency(ctx, &input);
+            }
+        }
+    }
+
+    // (c) random
+    let nr = ctx.budget(40000, 1200000);
+    for i in 0..nr {
+        let m = match i % 4 {
+            0 => random_ranked(&mut ctx.rng, 6, 6, 3),
+            1 => random_ranked(&mut ctx.rng, 10, 9, 2),
+            2 => random_model(&mut ctx.rng, MEDIUM),
+            _ => {
+                let m = random_ranked(&mut ctx.rng, 4, 5, 4);
+                scramble(&mut ctx.rng, &m)
+            }
+        };
+        let input = json!({"m": m.json()});
+        chk_layer(ctx, &input);
+        if i % 3 == 0 {
+            chk_adjacency(ctx, &input);
+        }
+    }
+    let nm = ctx.budget(25000, 600000);
+    for i in 0..nm {
+        let c = if i % 50 == 7 { random_mult(&mut ctx.rng, 24, 30) } else if i % 5 == 0 { random_mult(&mut ctx.rng, 12, 9) } else { random_mult(&mut ctx.rng, 7, 5) };
+        let st = [ctx.rng.below(5)];
+        run_mult(ctx, &c, &st);
+    }
+    ctx.notes.push(
+        "rule: (1) corner hypergraphs (model corners + zero-arity, single shared node, 2x2 fan through one node, repeated nodes, unread/unwritten nodes, op-free) each also under a random renumbering; \
+         (2) corner dependency multigraphs (chains to 64 both numberings, cycles 1/2/3/5, multiplicities up to 25, cycle with head+tail, 40-chain with a 2-cycle in the middle, unbalanced diamonds, complete DAGs to 7 ops, complete digraphs, figure eight, 40-wide fan, binary tree) each realised as a hypergraph in 5 styles (multiplicity on the target side, on the source side, one shared output node per op, one shared input node per op, factored) and fed raw to kahn; \
+         (3) exhaustive multigraphs: k<=2 ops mult 0..3, k=3 mult 0..1 (thorough: k=3 mult 0..2, k=4 mult 0..1); exhaustive hypergraphs with (nodes,ops) in {(1,2),(2,2),(1,3)} (thorough: +(3,2),(2,3)), all source/target lists of length <=2; \
+         (4) random: rank-stratified hypergraphs (acyclic by construction, 1/3 spoiled by extra incidences) up to 10 nodes/9 ops/arity 4, uniform random models (MEDIUM), random multigraphs up to 12 ops mult up to 9 (1 in 50: up to 24 ops, mult up to 30) with back/self edges; quick 40000 hypergraphs + 25000 multigraphs, thorough 1.2M + 0.6M. \
+         non-trivial = at least 2 operations and at least one dependency. oracle: transitive closure for 'on or downstream of a cycle', relaxation for longest chain; any conforming layering accepted."
+            .into(),
+    );
+}
